@@ -226,6 +226,35 @@ def _event_arm(hfn, variant):
     return res
 
 
+def _break_always_stored(ctx, hfn):
+    """a break event whose two times parse is stored: the push onto `breaks` is not under any condition"""
+    arms = _event_arm(hfn, 'Break')
+    if len(arms) != 1:
+        return False, 'expected one `EventType::Break` arm, found %d' % len(arms), None
+    pushes = []
+
+    def visit(n, path):
+        if n.get('k') == 'mcall' and n.get('name') in ('push', 'extend', 'insert', 'extend_from_slice', 'push_back'):
+            fc = H.field_chain(strip(n['recv']))
+            if fc and fc[1] and fc[1][-1] == 'breaks':
+                conds = [a for a, k in path if (a.get('k') == 'if' and k in ('t', 'e')) or
+                         (a.get('k') == 'match' and k == 'arms' and not a.get('src', '').startswith('TryDesugar')) or
+                         (a.get('k') == 'closure') or (a.get('k') == 'loop')]
+                pushes.append((n, conds))
+    H.walk_paths(arms[0], visit)
+    if not pushes:
+        return False, 'the break arm never stores the break', None
+    for n, conds in pushes:
+        if conds:
+            return False, ('a parsed break is stored only under a condition (line %s): some valid break records are dropped'
+                           % conds[0].get('ln')), n.get('ln')
+    return True, '', pushes[0][0].get('ln')
+
+
+_break_always_stored.positive = True
+row('C11', EVENTS, 'break:always-stored', _break_always_stored)
+
+
 def _bg_assignments(arm):
     """(rhs, line, enclosing ifs with the branch taken) of `..background_file = rhs` in an arm"""
     out = []
@@ -261,15 +290,46 @@ def _bg_precedence(variant):
                 if not any(br == 't' and want.m(ctx, i['c']) for i, br in ifs):
                     return False, 'a sprite replaces the background file even when one is already set', ln
             elif variant == 'Video':
-                def negated_membership(c):
+                def negated_membership(c, cx=None, depth=0):
+                    """c can only be true when the VIDEO_EXTENSIONS membership test is false: `!contains(..)`,
+                    possibly behind a let, a predicate helper, or in the arms of a match/if whose other arms are `false`"""
+                    cx = cx or ctx
                     c = strip(c)
-                    if not (isinstance(c, dict) and c.get('k') == 'unary' and c.get('op') == 'Not'):
+                    if depth > 6 or not isinstance(c, dict):
                         return False
-                    x = strip(c['e'])
-                    cands = [x]
-                    if isinstance(x, dict) and x.get('k') == 'local':
-                        cands = unique_inits(ctx, x['name'])
-                    return any(CONTAINS(P('VIDEO_EXTENSIONS')).m(ctx, y) for y in cands)
+                    k = c.get('k')
+                    if k == 'unary' and c.get('op') == 'Not':
+                        x = strip(c['e'])
+                        cands = [x]
+                        if isinstance(x, dict) and x.get('k') == 'local':
+                            cands = unique_inits(cx, x['name'])
+                        return any(CONTAINS(P('VIDEO_EXTENSIONS')).m(cx, y) for y in cands)
+                    if k == 'local':
+                        its = unique_inits(cx, c['name'])
+                        return len(its) == 1 and negated_membership(its[0], cx, depth + 1)
+                    if k == 'block' and 'expr' in c:
+                        return negated_membership(c['expr'], cx, depth + 1)
+                    if k in ('call', 'mcall'):
+                        from hp import inline_call
+                        ih = inline_call(cx, c)
+                        return ih is not None and negated_membership(ih[0], ih[1], depth + 1)
+                    if k == 'binary' and c.get('op') == 'And':
+                        return negated_membership(c['a'], cx, depth + 1) or negated_membership(c['b'], cx, depth + 1)
+                    branches = None
+                    if k == 'match' and not c.get('src', '').startswith('TryDesugar'):
+                        branches = [a['body'] for a in c['arms']]
+                    elif k == 'if' and 'e' in c:
+                        branches = [c['t'], c['e']]
+                    if branches:
+                        oks = 0
+                        for br_ in branches:
+                            if cx.const_value(br_) is False:
+                                continue
+                            if not negated_membership(br_, cx, depth + 1):
+                                return False
+                            oks += 1
+                        return oks >= 1
+                    return False
                 if not any(br == 't' and negated_membership(i['c']) for i, br in ifs):
                     return False, ('a video event sets the background file without the file having a non-video '
                                    'extension (negated VIDEO_EXTENSIONS test)'), ln
@@ -642,8 +702,11 @@ row('C14', HITOBJ, 'pos.y', _struct_init('util::pos::Pos', 'y', COORD))
 row('C14', 'section::hit_objects::decode::HitObjectsState::convert_points::read_point', 'path-point-limits',
     _contains(M('parse_with_limits', ANY(), K(131072)), 'path coordinates parsed with the 131072 limit'))
 row('C14', 'section::hit_objects::decode::HitObjectsState::convert_points::read_point', 'path-point-truncation',
-    _contains(C('Pos::new', CAST(CAST(ANY(), 'i32'), 'f32'), CAST(CAST(ANY(), 'i32'), 'f32')),
-              'path coordinates truncated to integers'))
+    _contains(C('Pos::new', CAST(CAST(TRY(ANY()), 'i32'), 'f32'), CAST(CAST(TRY(ANY()), 'i32'), 'f32')),
+              'each parsed path coordinate itself is truncated to an integer (before it is made relative)'))
+row('C14', 'section::hit_objects::decode::HitObjectsState::convert_points::read_point', 'path-point-relative-after-truncation',
+    _contains(C('PathControlPoint::new', BIN('Sub', ANY(), L('start_pos'))),
+              'the truncated position is made relative to the slider position'))
 row('C14', HITOBJ, 'length>=0',
     _let('new_len', M('max', TRY(M('parse_with_limits', ANY(), K(131072))), K(0.0))))
 row('C14', HITOBJ, 'length-epsilon',
@@ -664,6 +727,121 @@ row('C14', HITOBJ, 'node-default:sound-type', _let('node_sound_types', _filled(L
 row('C14', HITOBJ, 'node-default:bank',
     _let('node_bank_infos', _filled(OR(M('clone', L('bank_info')), L('bank_info')))))
 _GE2 = BIN('Ge', L('custom_sample_bank'), K(2))
+CST = 'section::hit_objects::hit_samples::SampleBankInfo::convert_sound_type'
+_HS = 'section::hit_objects::hit_samples::'
+
+
+def _sound_type_samples(aspect):
+    """hit-sound byte + bank info -> sample list (legacy rules): the first sample is the file sample (bank none, index 1)
+    when a non-empty file name is given, else `hitnormal` (normal bank), layered iff the byte is non-zero without the NORMAL
+    bit; then finish, whistle, clap -- in this order -- for their bits, each with the addition bank; all carry the custom
+    index and the volume."""
+    def chk(ctx, hfn):
+        order = {}
+        ctors, assigns, ifs, tuples = [], [], [], []
+
+        def visit(n, anc):
+            order[id(n)] = len(order)
+            if n.get('k') == 'call' and n['f'].get('k') == 'path' and n['f'].get('def', '').endswith('HitSampleInfo::new') \
+                    and len(n['args']) == 4:
+                ctors.append((n, list(anc)))
+            if n.get('k') == 'assign' and isinstance(n['l'], dict) and n['l'].get('k') == 'field' and n['l'].get('n') == 'is_layered':
+                assigns.append(n)
+            if n.get('k') == 'if':
+                ifs.append(n)
+            if n.get('k') == 'tup' and len(n.get('es', [])) == 2:
+                tuples.append(n)
+        H.walk(hfn['body'], visit)
+        # a flag -> name table kept in a (nested) const: its tuples count where the const is used
+
+        def visit_c(n, anc):
+            if n.get('k') == 'path' and n.get('dk', '').startswith(('Const', 'AssocConst')) and \
+                    dict.__contains__(ctx.facts.hir, n.get('def')):
+                base = order.get(id(n), 0)
+                sub = []
+                H.walk(ctx.facts.hir[n['def']]['body'],
+                       lambda x, a: sub.append(x) if x.get('k') == 'tup' and len(x.get('es', [])) == 2 else None)
+                for j, t in enumerate(sub):
+                    order[id(t)] = base + (j + 1) * 1e-3
+                    tuples.append(t)
+        H.walk(hfn['body'], visit_c)
+        ST = L('sound_type')
+        fld = lambda nm: OR(F(ANY(), nm), L(nm))
+        is_file = lambda e: C('HitSampleInfoName::File', ANY()).m(ctx, e)
+        is_name = lambda e, nm: P('HitSampleInfo::' + nm).m(ctx, e)
+        files = [c for c in ctors if is_file(c[0]['args'][0])]
+        normals = [c for c in ctors if is_name(c[0]['args'][0], 'HIT_NORMAL')]
+        others = [c for c in ctors if c not in files and c not in normals]
+        if aspect == 'layered':
+            if len(assigns) != 1:
+                return False, '%d assignments to `is_layered` (expected one, on the normal sample)' % len(assigns), None
+            has_normal = OR(M('has_flag', ST, P('HitSoundType::NORMAL')), C('has_flag', ST, P('HitSoundType::NORMAL')))
+            pat = BIN('And', BIN('Ne', ST, OR(P('HitSoundType::NONE'), K(0)), commutative=True), UN('Not', has_normal), commutative=True)
+            ok = pat.m(ctx, assigns[0]['r'])
+            return ok, '' if ok else ('the normal sample is layered iff `sound_type != NONE && !sound_type.has_flag(NORMAL)`; '
+                                      'found another condition'), assigns[0].get('ln')
+        if aspect == 'primary':
+            if len(files) != 1 or len(normals) != 1:
+                return False, 'expected one file sample and one normal sample constructor (found %d / %d)' % (len(files), len(normals)), None
+            f, nrm = files[0][0], normals[0][0]
+            okf = P('None').m(ctx, f['args'][1]) and K(1).m(ctx, f['args'][2]) and fld('volume').m(ctx, f['args'][3])
+            if not okf:
+                return False, 'the file sample is not built with (no bank, index 1, the volume)', f.get('ln')
+            okn = fld('bank_for_normal').m(ctx, nrm['args'][1]) and fld('custom_sample_bank').m(ctx, nrm['args'][2]) \
+                and fld('volume').m(ctx, nrm['args'][3])
+            if not okn:
+                return False, 'the normal sample is not built with (normal bank, custom index, volume)', nrm.get('ln')
+            # file and normal sample exclude each other: the two branches of the "non-empty file name" test
+            for i in ifs:
+                if 'e' not in i:
+                    continue
+                in_t, in_e = [], []
+                H.walk(i['t'], lambda x, a: in_t.append(x) if x is f else None)
+                H.walk(i['e'], lambda x, a: in_e.append(x) if x is nrm else None)
+                if in_t and in_e:
+                    c = strip(i['c'])
+                    init = c.get('init') if isinstance(c, dict) and c.get('k') == 'let' else c
+                    ok = CONTAINS(M('filter', fld('filename'), CONTAINS(UN('Not', M('is_empty', ANY()))))).m(ctx, init) or \
+                        M('filter', fld('filename'), CONTAINS(UN('Not', M('is_empty', ANY())))).m(ctx, init)
+                    return ok, '' if ok else 'file/normal sample choice is not "a non-empty file name is given"', i.get('ln')
+            return False, 'the file sample and the normal sample are not the two branches of one test', None
+        if aspect == 'additions':
+            if not others:
+                return False, 'no addition sample constructor found', None
+            for c, _a in others:
+                ok = fld('bank_for_addition').m(ctx, c['args'][1]) and fld('custom_sample_bank').m(ctx, c['args'][2]) \
+                    and fld('volume').m(ctx, c['args'][3])
+                if not ok:
+                    return False, 'an addition sample is not built with (addition bank, custom index, volume)', c.get('ln')
+            pos = {}
+            for X in ('FINISH', 'WHISTLE', 'CLAP'):
+                flagp, namep = P('HitSoundType::' + X), P('HitSampleInfo::HIT_' + X)
+                hit = None
+                for i in ifs:
+                    c = strip(i['c'])
+                    if (M('has_flag', ST, flagp).m(ctx, c) or C('has_flag', ST, flagp).m(ctx, c)) and CONTAINS(namep).m(ctx, i['t']):
+                        hit = i
+                for t in tuples:
+                    if flagp.m(ctx, t['es'][0]) and namep.m(ctx, t['es'][1]):
+                        # table form: the table must be what a `has_flag` test iterates over
+                        if any((M('has_flag', ST, ANY()).m(ctx, strip(i['c'])) or C('has_flag', ST, ANY()).m(ctx, strip(i['c'])))
+                               for i in ifs):
+                            hit = t
+                if hit is None:
+                    return False, 'bit %s does not add the `hit%s` sample' % (X, X.lower()), None
+                pos[X] = order[id(hit)]
+            ok = pos['FINISH'] < pos['WHISTLE'] < pos['CLAP']
+            return ok, '' if ok else 'additions are not produced in the order finish, whistle, clap', None
+        return False, 'unknown aspect', None
+    chk.positive = True
+    chk.keep = ('HitSampleInfo::new', 'has_flag')
+    return chk
+
+
+for _a in ('layered', 'primary', 'additions'):
+    row('C14', CST, 'sound-type:' + _a, _sound_type_samples(_a))
+row('C14', _HS + 'HitSampleInfo::new', 'new-sample-not-layered',
+    _struct_init(_HS + 'HitSampleInfo', 'is_layered', K(False)))
 row('C14', 'section::hit_objects::hit_samples::HitSampleInfo::new', 'suffix-only-from-custom-index>=2',
     _struct_init('section::hit_objects::hit_samples::HitSampleInfo', 'suffix',
                  OR(M('then', _GE2, ANY()), M('then_some', _GE2, ANY()), IF(_GE2, ANY(), ANY()))))
@@ -685,10 +863,176 @@ row('C14', CONVP, 'split:not-in-catmull',
 row('C14', CONVP, 'split:not-at-segment-end',
     _contains(IF(BIN('Eq', L('end_idx'), BIN('Sub', BIN('Sub', M('len', ANY()), L('end_point_len')), K(1))), ANY()),
               'no split at the end of a segment'))
-row('C14', CONVP, 'perfect->linear',
-    _contains(IF(C('is_linear', ANY(), ANY(), ANY()), ANY()), 'degenerate three-point perfect curves become linear'))
-row('C14', CONVP, 'perfect->bezier',
-    _contains(IF(BIN('Eq', L('path_type'), P('PathType::PERFECT_CURVE')), ANY()), 'other perfect curves become Bezier'))
+def _perfect_curve_table(ctx, hfn):
+    """the path type stored on a segment's first vertex, as a decision table over (declared type is
+    PERFECT_CURVE, the segment has exactly three vertices, they are collinear):
+      not perfect -> declared;  perfect & 3 & collinear -> LINEAR;  perfect & 3 & not collinear -> PERFECT_CURVE;
+      perfect & not 3 -> BEZIER.   Independent of how the code spells it (mutable local, match with guards, helper)."""
+    import symeval as SE
+    found = []
+
+    def query(st, env, ev):
+        if isinstance(st, dict) and st.get('k') == 'assign':
+            l = st['l']
+            if isinstance(l, dict) and l.get('k') == 'field' and l.get('n') == 'path_type':
+                r = strip(st['r'])
+                if isinstance(r, dict) and r.get('k') == 'call' and r['f'].get('k') == 'path' and r['f'].get('name') == 'Some' \
+                        and len(r['args']) == 1:
+                    r = r['args'][0]
+                t = ev.value(r, env)
+                found.append(t)
+                return t
+        return None
+    ev = SE.SymEval(query)
+    body = hfn['body']
+    try:
+        tree = ev.seq(list(body.get('stmts', [])), body.get('expr'), {}, lambda env, tail: ('v', {'k': 'end'}))
+    except SE.Stop:
+        return False, 'function too large to evaluate symbolically', None
+    if not found:
+        return False, 'no assignment to the first vertex\'s `path_type` found', None
+
+    def classify(c):
+        """(atom, polarity) of a condition, or None"""
+        pol = True
+        if c[0] == 'pat':
+            pat = c[1]
+            while isinstance(pat, dict) and pat.get('k') == 'pref':
+                pat = pat['p']
+            if pat.get('k') == 'pslice' and not pat.get('rest') and len(pat.get('before', [])) + len(pat.get('after', [])) == 3 \
+                    and all(x.get('k') in ('bind', 'wild') for x in pat.get('before', []) + pat.get('after', [])):
+                return ('len3', True)
+            if pat.get('k') in ('pexpr', 'path') and 'PathType::PERFECT_CURVE' in repr(pat):
+                return ('isP', True)
+            return None
+        e = strip(c[1])
+        while isinstance(e, dict) and e.get('k') == 'unary' and e.get('op') == 'Not':
+            e = strip(e['e'])
+            pol = not pol
+        if not isinstance(e, dict):
+            return None
+        if e.get('k') == 'binary' and e.get('op') in ('Eq', 'Ne'):
+            sides = [strip(e['a']), strip(e['b'])]
+            if any(P('PathType::PERFECT_CURVE').m(ctx, x) for x in sides):
+                return ('isP', pol if e['op'] == 'Eq' else not pol)
+            if any(isinstance(x, dict) and x.get('k') == 'mcall' and x.get('name') == 'len' for x in sides) and \
+                    any(ctx.const_value(x) == 3 for x in sides):
+                return ('len3', pol if e['op'] == 'Eq' else not pol)
+            return None
+        if e.get('k') == 'call' and e['f'].get('k') == 'path' and dict.__contains__(ctx.facts.hir, e['f'].get('def')) \
+                and len(e['args']) == 3 and all((strip(a).get('ty') or '').endswith('pos::Pos') for a in e['args']):
+            # the collinearity predicate over the three vertices (its formula has its own row)
+            return ('lin', pol)
+        if e.get('k') == 'binary' and e.get('op') == 'Lt' and isinstance(strip(e['a']), dict) and \
+                strip(e['a']).get('k') == 'mcall' and strip(e['a']).get('name') == 'abs' and \
+                ctx.const_value(e['b']) is not None and abs(ctx.const_value(e['b'])) < 1e-3:
+            return ('lin', pol)
+        return None
+
+    def kind(leaf):
+        leaf = strip(leaf)
+        if not isinstance(leaf, dict) or leaf.get('k') in ('unknown', 'unreachable', 'end', 'unit', 'returned'):
+            return None
+        for nm, tag in (('PathType::LINEAR', 'L'), ('PathType::BEZIER', 'B'), ('PathType::PERFECT_CURVE', 'P')):
+            if P(nm).m(ctx, leaf):
+                return tag
+        return 'D'
+    import itertools
+    for isP, len3, lin in itertools.product((True, False), repeat=3):
+        val = {'isP': isP, 'len3': len3, 'lin': lin}
+        bad = []
+
+        def decide(c):
+            cl = classify(c)
+            if cl is None:
+                bad.append(c)
+                return None
+            return val[cl[0]] == cl[1]
+        # only the paths that reach the assignment matter: conditions that are not about the type are skipped by
+        # following the branch that leads to the assignment
+        leaf = _eval_to_assignment(tree, decide, classify)
+        if leaf is None:
+            return False, 'the path type decision tests something other than (perfect curve?, three vertices?, collinear?)', None
+        kd = kind(leaf)
+        if not isP:
+            want = ('D',)
+        elif not len3:
+            want = ('B',)
+        elif lin:
+            want = ('L',)
+        else:
+            want = ('P', 'D')
+        if kd not in want:
+            return False, ('for (perfect curve=%s, three vertices=%s, collinear=%s) the stored path type is %s; expected %s'
+                           % (isP, len3, lin, {'D': 'the declared one', 'L': 'LINEAR', 'B': 'BEZIER', 'P': 'PERFECT_CURVE',
+                                               None: 'unknown'}[kd],
+                              '/'.join({'D': 'declared', 'L': 'LINEAR', 'B': 'BEZIER', 'P': 'PERFECT_CURVE'}[w] for w in want))), None
+    return True, '', None
+
+
+def _eval_to_assignment(tree, decide, classify):
+    """evaluate the tree; a test that is not about the path type (first segment?, end point?, error exits) is passed
+    through if both sides give the same answer, else the side that still reaches the assignment is taken"""
+    if tree[0] == 'v':
+        return tree[1]
+    _, c, t, e = tree
+    if classify(c) is not None:
+        d = decide(c)
+        return _eval_to_assignment(t if d else e, decide, classify)
+    a = _eval_to_assignment(t, decide, classify)
+    b = _eval_to_assignment(e, decide, classify)
+    dead = lambda x: x is None or (isinstance(x, dict) and x.get('k') in ('end', 'returned', 'unit'))
+    if dead(a):
+        return b
+    if dead(b):
+        return a
+    from hp import canon
+    return a if canon(a) == canon(b) else None
+
+
+def _collinear_formula(ctx, hfn):
+    """the predicate deciding "degenerate": |(p1.y-p0.y)(p2.x-p0.x) - (p1.x-p0.x)(p2.y-p0.y)| < f32::EPSILON"""
+    calls = []
+
+    def v(n, anc):
+        if n.get('k') == 'call' and n['f'].get('k') == 'path' and dict.__contains__(ctx.facts.hir, n['f'].get('def')) \
+                and len(n['args']) == 3 and all((strip(a).get('ty') or '').endswith('pos::Pos') for a in n['args']) \
+                and n.get('ty') == 'bool':
+            calls.append(n)
+    H.walk(hfn['body'], v)
+    if not calls:
+        return False, 'no collinearity predicate over three vertex positions is called', None
+    for c in calls:
+        h2 = ctx.facts.hir[c['f']['def']]
+        ps = [H.pat_bindings(p_)[0] for p_ in h2['params'] if H.pat_bindings(p_)]
+        if len(ps) != 3:
+            return False, 'unexpected predicate signature', None
+        c2 = Ctx(ctx.facts, H.binding_inits(h2), h2)
+        d = lambda i, j, ax: BIN('Sub', F(L(ps[i]), ax), F(L(ps[j]), ax))
+        t1 = BIN('Mul', d(1, 0, 'y'), d(2, 0, 'x'), commutative=True)
+        t2 = BIN('Mul', d(1, 0, 'x'), d(2, 0, 'y'), commutative=True)
+        pat = BIN('Lt', M('abs', OR(BIN('Sub', t1, t2), BIN('Sub', t2, t1))), K(1.1920928955078125e-07))
+        body = h2['body']
+        tail = body.get('expr') if body.get('k') == 'block' else body
+        if tail is None or not pat.m(c2, tail):
+            return False, ('the collinearity test is not |(p1.y-p0.y)(p2.x-p0.x) - (p1.x-p0.x)(p2.y-p0.y)| < f32::EPSILON '
+                           '(%s)' % c['f']['def']), c.get('ln')
+        # the three vertices are passed in order
+        names = []
+        for a in c['args']:
+            fc = H.field_chain(strip(a))
+            names.append(fc[0] if fc and fc[1] == ['pos'] else None)
+        if None in names or len(set(names)) != 3:
+            return False, 'the predicate is not applied to the positions of the three vertices', c.get('ln')
+    return True, '', calls[0].get('ln')
+
+
+_collinear_formula.positive = True
+row('C14', CONVP, 'perfect:collinear-test', _collinear_formula)
+_perfect_curve_table.positive = True
+_perfect_curve_table.keep = ('new_from_str',)
+row('C14', CONVP, 'perfect->linear', _perfect_curve_table)
+row('C14', CONVP, 'perfect->bezier', _perfect_curve_table)
 row('C14', CONVP, 'first-point-origin',
     _contains(IF(L('first'), CONTAINS(M('push', ANY(), C('default')))), 'the first segment starts at the origin'))
 row('C14', CONVP, 'type-on-first-vertex',
@@ -811,6 +1155,25 @@ def _break_forces_combo(ctx, hfn):
                     and n['f'].get('name') not in ('Some', 'Ok'):
                 bad.append('`%s()`' % n['f'].get('name'))
         H.walk(c, v)
+        # the cursor the guard advances (`breaks.next_if(..)`): what it iterates over must be all the breaks
+        seen_l = set()
+
+        def vl(n, anc):
+            if n.get('k') == 'index':
+                ix = strip(n.get('i', n.get('idx', {})))
+                if isinstance(ix, dict) and ix.get('k') == 'local' and ix.get('name') not in seen_l:
+                    seen_l.add(ix['name'])
+                    for i in ctx.inits.get(ix['name'], []):
+                        if ctx.const_value(i) != 0 or isinstance(ctx.const_value(i), bool):
+                            bad.append('a break cursor `%s` that does not start at the first break' % ix['name'])
+            if n.get('k') == 'mcall' and n.get('name') in ('next_if', 'next_if_eq', 'peek', 'next', 'peek_mut'):
+                r_ = strip(n['recv'])
+                if isinstance(r_, dict) and r_.get('k') == 'local' and r_.get('name') not in seen_l:
+                    seen_l.add(r_['name'])
+                    for i in unique_inits(ctx, r_['name']):
+                        if isinstance(i, dict):
+                            H.walk(i, v)
+        H.walk(c, vl)
         return bad
 
     def v2(n, anc):
@@ -945,6 +1308,52 @@ row('C19', IV, 'zero-length-segment-guard',
               'a (near) zero-length segment returns its first vertex instead of dividing'))
 row('C19', IV, 'weight', _let('w', BIN('Div', BIN('Sub', L('d'), L('d0')), BIN('Sub', L('d1'), L('d0')))))
 row('C19', IV, 'lerp', _ret(BIN('Add', L('p0'), BIN('Mul', BIN('Sub', L('p1'), L('p0')), CAST(L('w'), 'f32')))))
+CLEN = CURVE + 'calculate_length'
+
+
+def _fit_end_point(ctx, hfn):
+    """length adjustment: the (new) last vertex lies on the last kept segment at the expected total length:
+    path[end] = path[prev] + dir * (expected_len - cumulative_len[prev]) and the expected length is recorded for it"""
+    hits = []
+
+    def v(n, anc):
+        if n.get('k') in ('assign', 'assignop') and isinstance(n['l'], dict) and strip(n['l']).get('k') == 'index':
+            base = strip(strip(n['l'])['e'])
+            if isinstance(base, dict) and base.get('k') == 'local' and (base.get('ty') or '').find('Pos') >= 0:
+                hits.append(n)
+    H.walk(hfn['body'], v)
+    hits = [h for h in hits if L('path').m(ctx, strip(h['l'])['e'])]
+    if len(hits) != 1:
+        return False, '%d writes to a path vertex in the length adjustment (expected exactly the end point)' % len(hits), None
+    h = hits[0]
+    if h['k'] != 'assign' or not L('end_idx').m(ctx, strip(h['l'])['i']):
+        return False, 'the end point is not assigned as a whole (`path[end_idx] = ..`)', h.get('ln')
+    pat = BIN('Add', INDEX(L('path'), L('prev_idx')),
+              BIN('Mul', L('dir'), CAST(BIN('Sub', L('expected_len'), INDEX(L('cumulative_len'), L('prev_idx'))), 'f32'),
+                  commutative=True), commutative=True)
+    ok = pat.m(ctx, h['r'])
+    return ok, '' if ok else ('the end point is not `path[prev] + dir * (expected_len - cumulative_len[prev])`: the last vertex '
+                              'would not sit at the expected total length'), h.get('ln')
+
+
+def _path_lengths_in_step(ctx, hfn):
+    import lenshape
+    ok, why, n = lenshape.check(ctx.facts, hfn)
+    return ok, why, None
+
+
+_path_lengths_in_step.positive = True
+row('C19', CLEN, 'vertices-and-lengths-in-step', _path_lengths_in_step)
+_fit_end_point.positive = True
+row('C19', CLEN, 'fit:end-point', _fit_end_point)
+row('C19', CLEN, 'fit:end_idx', _let('end_idx', M('len', L('cumulative_len'))))
+row('C19', CLEN, 'fit:prev_idx', _let('prev_idx', BIN('Sub', L('end_idx'), K(1))))
+row('C19', CLEN, 'fit:direction',
+    _let('dir', M('normalize', BIN('Sub', INDEX(L('path'), L('end_idx')), INDEX(L('path'), L('prev_idx'))))))
+row('C19', CLEN, 'fit:expected-length-recorded',
+    _contains(M('push', L('cumulative_len'), L('expected_len')), 'the expected length becomes the last cumulative length'))
+row('C19', CLEN, 'fit:last-valid',
+    _let('last_valid', M('map_or', M('position', M('rev', M('iter', L('cumulative_len'))), ANY()), K(0), ANY())))
 row('C19', IV, 'segment', _let('p0', INDEX(L('path'), BIN('Sub', L('i'), K(1)))))
 row('C19', IV, 'segment-lengths:d0', _let('d0', INDEX(L('lengths'), BIN('Sub', L('i'), K(1)))))
 row('C19', IV, 'segment-lengths:d1', _let('d1', INDEX(L('lengths'), L('i'))))
@@ -1233,7 +1642,7 @@ def run_nf(facts, out):
         hfn = facts.hir.get(TIMING)
         ok = False
         # in the parser itself or in a private helper it calls (the local may be named differently there)
-        for h2 in [hfn] + local_callees(facts, hfn, depth=1):
+        for h2 in [hfn] + local_callees(facts, hfn, depth=3):
             ctx = Ctx(facts, H.binding_inits(h2), h2)
             lo = find(ctx, h2['body'], IF(BIN('Lt', L('beat_len'), C('from', UN('Neg', K(2147483647)))), ANY()))
             hi = find(ctx, h2['body'], BIN('Gt', L('beat_len'), C('from', K(2147483647))))
